@@ -21,7 +21,8 @@ RULE = ("classes from the type-directed declaration generator; kwargs streams va
         "kinds (constructor with/without an unknown keyword, missing/None/invalid arguments, Deserializer with an extra key x "
         "keep_undefined, shallow_clone_with_overrides / from_other_class(instance|mapping) with an extra name, assignment of a new "
         "attribute, copy/deepcopy/clone/cast_to chain; the Undefined sentinel given for a required field; keyword / document / mapping "
-        "names equal to the library's per-instance bookkeeping flags next to invalid values); the declaration is checked on the returned instance in Python")
+        "names equal to the library's per-instance bookkeeping flags next to invalid values; a cross-field __validate__ hook stated on the base, "
+        "through constructor / clone / from_other_class / mapping / Deserializer / cast_to from a subclass with a looser hook / a copy chain); the declaration is checked on the returned instance in Python")
 ASSUMPTIONS = [
     "trusted entry points (from_trusted_data, trust_supplied_values, direct_trusted_mapping) are excluded by the statement",
     "Deserializer as an entry point is covered by C05/C06's suites, not here",
@@ -36,7 +37,11 @@ ENTRY_KINDS = ["ctor", "ctor-extra", "deser-extra", "clone-extra", "from-other-e
                # sentinels and bookkeeping names as ARGUMENTS: the Undefined sentinel for a required field, and keyword
                # names equal to the library's per-instance flags (which switch validation off when set on an instance)
                "ctor-undefined-required", "ctor-internal-trust", "ctor-internal-skip", "from-mapping-internal", "deser-internal",
-               "clone-internal"]
+               "clone-internal",
+               # the class's own __validate__ hook (a cross-field condition stated on the BASE): every entry point that
+               # yields an instance must have run it
+               "hook-ctor-bad", "hook-clone-bad", "hook-from-other-bad", "hook-from-mapping-bad", "hook-deser-bad",
+               "hook-cast-bad", "hook-chain-good"]
 
 
 def inherit_cases(rng, n):
@@ -66,6 +71,12 @@ def run_inherit(case):
         base_body["_additional_properties"] = case["addl"]
     if case["ignore_none"] is not None:
         base_body["_ignore_none"] = case["ignore_none"]
+    hooked = case["entry"].startswith("hook-")
+    if hooked:
+        def __validate__(self):
+            if self.a is not None and self.tags is not None and self.a < len(self.tags):
+                raise ValueError("a must be at least the number of tags")
+        base_body["__validate__"] = __validate__
     try:
         cls = type("Base", ((ImmutableStructure if case["immutable"] else Structure),), base_body)
         names = ["a", "tags"]
@@ -117,6 +128,22 @@ def run_inherit(case):
                                               keep_undefined=case["keep_undefined"])
         elif entry == "clone-internal":
             x = cls(**good).shallow_clone_with_overrides(_trust_supplied_values=True, a=-1)
+        elif entry == "hook-ctor-bad":
+            x = cls(a=0, tags=["x"], b0="ab")
+        elif entry == "hook-clone-bad":
+            x = cls(a=2, tags=["x", "y"]).shallow_clone_with_overrides(a=1)
+        elif entry == "hook-from-other-bad":
+            x = cls.from_other_class(cls(a=2, tags=["x", "y"]), a=0)
+        elif entry == "hook-from-mapping-bad":
+            x = cls.from_other_class({"a": 1, "tags": ["x", "y"]})
+        elif entry == "hook-deser-bad":
+            x = Deserializer(cls).deserialize({"a": 0, "tags": ["x"]}, keep_undefined=case["keep_undefined"])
+        elif entry == "hook-cast-bad":
+            # a subclass that loosens the hook; casting its instance to the parent class must run the parent's hook
+            loose = type("Loose", (cls,), {"__validate__": lambda self: None})
+            x = loose(a=0, tags=["x"]).cast_to(cls)
+        elif entry == "hook-chain-good":
+            x = copy.deepcopy(copy.copy(cls(a=2, tags=["x", "y"]))).shallow_clone_with_overrides(a=3).cast_to(cls)
         elif entry == "copy-chain":
             x = copy.deepcopy(copy.copy(cls(**good))).shallow_clone_with_overrides().cast_to(cls)
         else:
@@ -137,6 +164,8 @@ def run_inherit(case):
         problems.append(f"b0 = {attrs['b0']!r} violates String(maxLength=3)")
     if attrs.get("tags") is not None and not (isinstance(attrs["tags"], list) and len(attrs["tags"]) <= 2 and all(isinstance(t, str) for t in attrs["tags"])):
         problems.append(f"tags = {attrs['tags']!r} violates Array(items=String, maxItems=2)")
+    if hooked and attrs.get("a") is not None and attrs.get("tags") is not None and attrs["a"] < len(attrs["tags"]):
+        problems.append(f"a = {attrs['a']!r} with {len(attrs['tags'])} tags: the class's __validate__ hook rejects this instance")
     return {"out": "instance", "problems": problems, "inst": str(x)[:200]}
 
 
